@@ -10,13 +10,16 @@ def run(pid, tier, seed, stage, work, repo, verif, env):
     out = os.path.join(work, "race", test + ".json")
     e = dict(env, VERIF_RAC_OUT=out, VERIF_TIER=tier, VERIF_SEED=str(seed), CGO_ENABLED="1")
     cmd = ["go", "test", "-race", "-tags", "verif", "-overlay", rac.overlay(os.path.join(work, "race"), repo, verif), "-vet=off", "-count=1",
-           "-timeout", "600s", "-run", "^%s$" % test, "."]
+           "-timeout", "240s", "-run", "^%s$" % test, "."]
     t0 = time.time()
     try:
-        p = subprocess.run(cmd, cwd=repo, env=e, stdout=subprocess.PIPE, stderr=subprocess.STDOUT, text=True, timeout=700)
+        p = subprocess.run(cmd, cwd=repo, env=e, stdout=subprocess.PIPE, stderr=subprocess.STDOUT, text=True, timeout=300)
         log = p.stdout
     except subprocess.TimeoutExpired as ex:
-        log = (ex.stdout or "") + "\n[driver timeout]"
+        log = (ex.stdout or "")
+        if isinstance(log, bytes):
+            log = log.decode("utf-8", "replace")
+        log += "\n[driver timeout]"
     viol = []
     if "-race is only supported" in log or "requires cgo" in log or "C compiler" in log:
         return {"violations": [], "coverage": {"race_detector": "unavailable in this sandbox: " + log[-200:]}, "assumptions": ["race detector run skipped (unavailable)"]}
@@ -32,7 +35,14 @@ def run(pid, tier, seed, stage, work, repo, verif, env):
             viol.append({"name": v["clause"], "kind": "rac", "detail": "observed %s ; expected %s" % (v["observed"], v["expected"]), "input": v["input"],
                          "confirmed": True, "replay_kind": "rac", "test": test})
     elif not races:
-        return {"infra_error": "race harness did not run:\n" + log[-2000:]}
+        if "[driver timeout]" in log or "test timed out" in log or "panic: test timed out" in log:
+            viol.append({"name": "MapPollard.concurrent.completes", "kind": "race", "confirmed": True, "replay_kind": "race", "test": test, "input": {"test": test},
+                         "detail": "the concurrent run (one writer, three readers) did not complete: deadlock or livelock\n" + log[-1500:]})
+        elif "build failed" in log or "cannot find" in log:
+            return {"infra_error": "race harness did not build:\n" + log[-2000:]}
+        else:
+            viol.append({"name": "MapPollard.concurrent.completes", "kind": "race", "confirmed": True, "replay_kind": "race", "test": test, "input": {"test": test},
+                         "detail": "the concurrent run crashed:\n" + log[-1500:]})
     cov = {"race_runs": 1, "race_reports": len(races), "race_cmd": " ".join(cmd), "race_wall_s": round(time.time() - t0, 1)}
     if res:
         cov.update({"evaluations": res["evaluations"], "distinct_nontrivial": res["distinct_nontrivial"], "rule": res["rule"], "samples": res.get("samples") or []})
